@@ -72,7 +72,7 @@ Proof. reflexivity. Qed.
 Lemma evals_S : forall O G gd n s e0 r,
   evals O G gd (S n) s e0 r =
   match s with
-  | SRet m x => Some (retv m (r x))
+  | SReturn m x => Some (retv m (r x))
   | SApp p x y e kok kerr kfail =>
       match evalp O G gd n p (pos (r x)) with
       | None => None
@@ -249,7 +249,7 @@ Lemma retv_asis : forall v, retv AsIs v = v.
 Proof. intros v. now destruct v. Qed.
 
 Lemma sret_sound : forall nu e0 rr a m x, aenv_ok e0 rr a ->
-  is_ok (retv m (rr x)) = true -> nulls nu a (SRet m x) = false ->
+  is_ok (retv m (rr x)) = true -> nulls nu a (SReturn m x) = false ->
   List.length (pos (retv m (rr x))) < List.length e0.
 Proof.
   intros nu e0 rr a m x Ha Hok Hn. destruct (Ha x) as [Hc Ho]. destruct m.
